@@ -14,11 +14,12 @@ CHARSETS = ["latin-1", "iso-8859-1", "utf-8", "utf8", "UTF-8", "utf-16", "utf-32
             "utf-32be", "gb2312", "GBK", "gbk", "gb18030", "ascii", "us-ascii", "cp1252", "shift_jis", "euc-kr", "big5",
             "iso-8859-15", "koi8-r", "utf-8-sig", "x-unknown", "", '"utf-8"', "identity", "none", "gzip", "base64", "rot13",
             "hex", "br", "zstd", "deflate", "bz2", "undefined", "cp037", "utf_8", "latin1", "l1", "u8", "GB2312", "Gb2312", "cp932", "big5hkscs",
-            "cp950", "cp949", "windows-1252", "hz"]
+            "cp950", "cp949", "windows-1252", "hz", "gb\u212a", "GB\u212a", "utf-8\u0130", "lat\u0130n-1", "\u00dcTF-8"]
 BODY_NAMES = ["latin-1", "utf-8", "utf8", "UTF-8", "utf-16", "gb2312", "ascii", "bogus", "cp1252", "utf-16le", "shift_jis", "é", "\xff"]
 TYPES = ["text/plain", "text/html", "application/json", "application/xml", "text/xml", "text/css", "text/javascript",
          "application/ecmascript", "image/svg+xml", "application/xhtml+xml", "TEXT/HTML", "Text/Css", "garbage", "", "text",
-         "application/ld+json", "text/css+html", "a/b/c", "/", "text/html/xml", "application/octet-stream", "text/x-json-html"]
+         "application/ld+json", "text/css+html", "a/b/c", "/", "text/html/xml", "application/octet-stream", "text/x-json-html",
+         "T\u00c9XT/Plain", "text/\u212aind", "\u0130mage/\u0130con", "\u01c5/\u1e9e"]
 PARAM_FORMS = ["; charset=%s", ";charset=%s", "; Charset=%s", "; charset = %s ", "; a=b; charset=%s", "; charset=%s; charset=latin-1",
                "; charset", "; charset=%s; boundary=x=y", ";;charset=%s;", "; \tcharset=%s", "; charset=\xa0%s　", " ; charset=%s",
                "; =%s; charset=%s"]
@@ -122,7 +123,7 @@ class Check(PropertyCheck):
                   "naming another codec, F-C32c BOM-emitting codec utf-16/utf-32); proved under the guard `inferEncoding ct' body' = "
                   "inferEncoding ct' []`. Codecs are parameters with the law dec n (enc n s) = s for the codec used (checked for the charset pool "
                   "in setup(); a text on which Python's own codec for the declared charset is lossy, e.g. the yen sign under shift_jis, is outside that "
-                  "assumption and not demanded); str.lower() is modelled as ASCII lower-casing (generator avoids U+212A/U+0130). Reading back a surrogate-escaped "
+                  "assumption and not demanded); str.lower() is modelled character by character from a generated table of chr(c).lower() (KELVIN SIGN -> k, U+0130 -> i + U+0307, …): exact for every string without GREEK CAPITAL SIGMA U+03A3, whose final-sigma rule depends on the context and is not transcribed (the generator never produces it). Reading back a surrogate-escaped "
                   "text is taken to mean get_text(strict=False) (the strict getter raises ValueError by design, test_http pins it); the oracle "
                   "then still demands that the strict getter never returns a different string.")
     technique = "Lean 4 proof (case analysis over the inference tree, induction for parse∘assemble) + differential correspondence on Message objects"
@@ -142,7 +143,7 @@ class Check(PropertyCheck):
                     "mitmproxy.net.encoding:encode", "mitmproxy.net.encoding:decode"]
     trusted_base = ["Python codecs (parameters of the model): decode(encode(s)) = s for the codec used; strict utf-8 decoding agrees with "
                     "surrogateescape decoding where it succeeds", "CPython re for the three in-body regexes (transcribed by hand in Model/C32.lean)",
-                    "str.lower() = ASCII lower-casing on the inputs considered"]
+                    "str.lower() = the generated per-character table, for strings without U+03A3 (final-sigma rule not transcribed)"]
     parallel = False
 
     # ------------------------------------------------------------------ tables
@@ -151,8 +152,20 @@ class Check(PropertyCheck):
         src = ("-- generated by harness/c32.py from the running interpreter: code points with str.isspace()\n"
                "namespace MitmVerif.Gen.C32\n"
                "def pySpace : List Nat := [" + ", ".join(map(str, sp)) + "]\n"
+               "/-- chr(c).lower() for every non-ASCII code point that it changes (str.lower() is this map applied character by\n"
+               "    character, except for the final-sigma rule of U+03A3) -/\n"
+               + self._lower_chunks() +
                "end MitmVerif.Gen.C32\n")
         return {"MitmVerif/Gen/C32.lean": src}
+
+    @staticmethod
+    def _lower_chunks():
+        """the table in chunks of 150 entries (one big list literal exceeds the elaborator's recursion depth)"""
+        ent = ["(%d, [%s])" % (c, ", ".join(str(ord(x)) for x in chr(c).lower()))
+               for c in range(128, sys.maxunicode + 1) if chr(c).lower() != chr(c)]
+        chunks = [ent[i:i + 150] for i in range(0, len(ent), 150)]
+        out = "".join("def pyLower%d : List (Nat × List Nat) := [%s]\n" % (i, ", ".join(ch)) for i, ch in enumerate(chunks))
+        return out + "def pyLower : List (Nat × List Nat) := " + " ++ ".join("pyLower%d" % i for i in range(len(chunks))) + "\n"
 
     def setup(self, tier):
         self.known_selftest()
